@@ -793,4 +793,79 @@ def tseq (prog : List (Nat × Nat)) : List (List (Nat × Nat)) := prog.map texpe
 
 end SharedTable
 
+
+/-! ### a bounded memo on the look-up hot path, with a non-atomic eviction
+
+  `get_or_raise(key)`: hit → done; miss with a full cache → evict the oldest entry, then insert. `nonatomic`: the
+  victim is PICKED (`next(iter(cache))`) and DELETED (`del cache[victim]`) in two steps — the delete raises KeyError when
+  another thread has deleted the same victim in between. `atomic`: pick + delete + insert in one step (under a lock);
+  `noEvict`: the memo is unbounded / absent (insert only). -/
+namespace Memo
+
+inductive Evict
+  | nonatomic | atomic | noEvict
+  deriving DecidableEq, Repr, Inhabited
+
+inductive MPc
+  | idle
+  | picked (k victim : Nat)   -- miss on k, cache was full, victim chosen, `del` still to come
+  | insert (k : Nat)          -- about to store k
+  deriving DecidableEq, Repr, Inhabited
+
+structure MThread where
+  todo : List Nat
+  pc : MPc
+  errors : Nat        -- KeyErrors raised out of the caller's call
+  finished : Nat      -- look-ups that returned
+  deriving Repr, Inhabited
+
+structure MState where
+  cache : List Nat    -- keys in insertion order
+  threads : Tid → MThread
+
+structure MCfg where
+  mode : Evict
+  cap : Nat
+
+def mset (s : MState) (t : Tid) (th : MThread) : MState :=
+  { s with threads := fun u => if u = t then th else s.threads u }
+
+def mstepIdle (cfg : MCfg) (s : MState) (t : Tid) (th : MThread) : Option MState :=
+  match th.todo with
+  | [] => none
+  | k :: rest =>
+    if s.cache.contains k then some (mset s t { th with todo := rest, finished := th.finished + 1 })
+    else if s.cache.length < cfg.cap then some (mset s t { th with todo := rest, pc := .insert k })
+    else
+      match cfg.mode with
+      | .noEvict => some (mset s t { th with todo := rest, pc := .insert k })
+      | .atomic => some (mset { s with cache := s.cache.tail ++ [k] } t { th with todo := rest, finished := th.finished + 1 })
+      | .nonatomic => some (mset s t { th with todo := rest, pc := .picked k (s.cache.headD 0) })
+
+def mstep (cfg : MCfg) (s : MState) (t : Tid) : Option MState :=
+  match (s.threads t).pc with
+  | .idle => mstepIdle cfg s t (s.threads t)
+  | .picked k v =>
+    if s.cache.contains v then some (mset { s with cache := s.cache.erase v } t { (s.threads t) with pc := .insert k })
+    else some (mset s t { (s.threads t) with pc := .idle, errors := (s.threads t).errors + 1 })   -- KeyError
+  | .insert k =>
+    some (mset { s with cache := if s.cache.contains k then s.cache else s.cache ++ [k] } t
+           { (s.threads t) with pc := .idle, finished := (s.threads t).finished + 1 })
+
+def minit (cache0 : List Nat) (progs : Tid → List Nat) : MState :=
+  { cache := cache0, threads := fun t => { todo := progs t, pc := .idle, errors := 0, finished := 0 } }
+
+def mrun (cfg : MCfg) (s : MState) : List Tid → MState
+  | [] => s
+  | t :: ts =>
+    match mstep cfg s t with
+    | some s' => mrun cfg s' ts
+    | none => mrun cfg s ts
+
+def MPc.isPicked : MPc → Bool
+  | .picked _ _ => true
+  | _ => false
+
+end Memo
+
 end SqlglotModel.Threads
